@@ -9,3 +9,36 @@ def classifier(fid):
         CLASSIFIERS[fid] = fn
         return fn
     return deco
+
+
+@classifier('n3-overlap-skipped')
+def n3_overlap_skipped(d):
+    """C06: the chosen mask is exactly what the pinned non-overlapping N3 scan
+    selects, and the two score vectors differ only by whole N3 units (40)."""
+    if d['kind'] != 'auto-mask':
+        return False
+    det = d['detail']
+    alt = det.get('nonoverlap_scores')
+    iso = det.get('scores')
+    if not alt or not iso or len(alt) != 8 or len(iso) != 8:
+        return False
+    if det['got'] != det.get('nonoverlap_best') or det['got'] == det['expected']:
+        return False
+    diffs = [a - b for a, b in zip(iso, alt)]
+    return all(x >= 0 and x % 40 == 0 for x in diffs) and any(diffs)
+
+
+@classifier('extra-zero-codeword')
+def extra_zero_codeword(d):
+    """C13: QR / M2 / M4 symbol whose stream is already codeword-aligned after
+    the terminator: exactly one 0x00 codeword precedes an otherwise correct
+    EC/11 alternation; nothing else in the tail is wrong."""
+    if d['kind'] != 'tail':
+        return False
+    det = d['detail']
+    if det['what'] != ['pad-codewords'] or det['version'] in ('M1', 'M3'):
+        return False
+    if (det['end_of_segments'] + det['terminator_bits']) % 8 != 0 or det['align_pad_bits'] != 0:
+        return False
+    pads = det['pad_codewords']
+    return bool(pads) and pads[0] == 0 and det['pads_tail_ok'] is True
